@@ -57,6 +57,60 @@ type startTimerResponse struct {
 	Cancel  func()
 }
 
+// activeTimer is the state of one started timer,
+// shared between the background goroutine and the cancel function handed to the caller.
+// The mutex makes cancelling and elapsing mutually exclusive,
+// so that once Cancel has returned, the elapsed channel is never closed.
+type activeTimer struct {
+	mu        sync.Mutex
+	cancelled bool
+
+	elapsedCh chan struct{} // Closed when the timer elapses, unless it was cancelled first.
+	cancelCh  chan struct{} // Closed on the first call to Cancel.
+}
+
+func newActiveTimer() *activeTimer {
+	return &activeTimer{
+		elapsedCh: make(chan struct{}),
+		cancelCh:  make(chan struct{}),
+	}
+}
+
+// Cancel is the cancel function returned to the caller.
+// It is safe to call multiple times and concurrently.
+func (a *activeTimer) Cancel() {
+	a.mu.Lock()
+	defer a.mu.Unlock()
+
+	if a.cancelled {
+		return
+	}
+	a.cancelled = true
+	close(a.cancelCh)
+}
+
+// Cancelled reports whether Cancel has been called.
+func (a *activeTimer) Cancelled() bool {
+	a.mu.Lock()
+	defer a.mu.Unlock()
+
+	return a.cancelled
+}
+
+// elapse closes the elapsed channel, unless the timer was already cancelled.
+//
+// Don't close the channel on cancel.
+// Closing it would allow a read to indicate an elapse,
+// which we should assume is undesired.
+func (a *activeTimer) elapse() {
+	a.mu.Lock()
+	defer a.mu.Unlock()
+
+	if !a.cancelled {
+		close(a.elapsedCh)
+	}
+}
+
 func NewStandardRoundTimer(ctx context.Context, s TimeoutStrategy) *StandardRoundTimer {
 	t := &StandardRoundTimer{
 		strat: s,
@@ -93,36 +147,49 @@ func (t *StandardRoundTimer) background(ctx context.Context) {
 		}
 	}
 
-	var timerElapsed, cancelTimer chan struct{}
+	// stopTimer stops the timer, to avoid leaking resources,
+	// and leaves it drained so that it is safe to reset.
+	// It reports false if the context was cancelled first.
+	stopTimer := func() bool {
+		if !timer.Stop() {
+			select {
+			case <-timer.C:
+				// Okay.
+			case <-ctx.Done():
+				return false
+			}
+		}
+		return true
+	}
+
+	// A request received while the previous, already cancelled timer was still being cleaned up.
+	var pending *startTimerRequest
 
 	for {
-		verifRTGate(t, "idle")
-		// Wait for signal to start timer.
-		select {
-		case <-ctx.Done():
-			return
+		var req startTimerRequest
+		if pending != nil {
+			req, pending = *pending, nil
+		} else {
+			verifRTGate(t, "idle")
+			// Wait for signal to start timer.
+			select {
+			case <-ctx.Done():
+				return
 
-		case req := <-t.startTimerRequests:
-			// We assume the timer is always stopped by the time we receive a valid start timer request.
-			// If the timer is stopped, then we are safe to reset.
-			timer.Reset(req.Dur)
-
-			timerElapsed = make(chan struct{})
-			cancelTimer = make(chan struct{})
-			// Local reference so the returned cancel function
-			// doesn't have a closure over the outer variable.
-			localCancel := cancelTimer
-			var cancelOnce sync.Once
-			// The caller should be blocking on the receive here,
-			// so we should be safe to do a blocking send.
-			req.Resp <- startTimerResponse{
-				Elapsed: timerElapsed,
-				Cancel: func() {
-					cancelOnce.Do(func() {
-						close(localCancel)
-					})
-				},
+			case req = <-t.startTimerRequests:
 			}
+		}
+
+		// We assume the timer is always stopped by the time we receive a valid start timer request.
+		// If the timer is stopped, then we are safe to reset.
+		timer.Reset(req.Dur)
+
+		cur := newActiveTimer()
+		// The caller should be blocking on the receive here,
+		// so we should be safe to do a blocking send.
+		req.Resp <- startTimerResponse{
+			Elapsed: cur.elapsedCh,
+			Cancel:  cur.Cancel,
 		}
 
 		verifRTGate(t, "running")
@@ -133,31 +200,29 @@ func (t *StandardRoundTimer) background(ctx context.Context) {
 
 		case <-timer.C:
 			// The timer elapsed.
-			close(timerElapsed)
-			timerElapsed = nil
-			cancelTimer = nil
+			// If the cancel function already returned,
+			// the cancellation wins and nothing is closed.
+			cur.elapse()
 
-		case <-cancelTimer:
-			// We need to stop the timer, to avoid leaking resources.
-			if !timer.Stop() {
-				select {
-				case <-timer.C:
-					// Okay.
-				case <-ctx.Done():
-					return
-				}
+		case <-cur.cancelCh:
+			if !stopTimer() {
+				return
 			}
 
-			// Don't close the channel on cancel.
-			// Closing it would allow a read to indicate an elapse,
-			// which we should assume is undesired.
-			timerElapsed = nil
-			cancelTimer = nil
+		case req := <-t.startTimerRequests:
+			// Select chooses randomly among ready cases,
+			// so a caller who cancelled the timer and immediately requested a new one
+			// may be seen here before the cancellation is.
+			if !cur.Cancelled() {
+				panic(errors.New(
+					"BUG: new timer requested before previous timer elapsed or was cancelled",
+				))
+			}
 
-		case <-t.startTimerRequests:
-			panic(errors.New(
-				"BUG: new timer requested before previous timer elapsed or was cancelled",
-			))
+			if !stopTimer() {
+				return
+			}
+			pending = &req
 		}
 	}
 }
